@@ -386,13 +386,17 @@ def run_check(tier, base_seed, args):
                            if r.get("sig") in ("TERM", "INT") and r.get("n", 0) > 0 and in_body(r.get("site")) and "done" not in SCENARIOS[r["scenario"]][1]})
             if tier != "thorough":
                 body = body[base_seed % 3::3]
+            else:
+                # every TERM site, every third INT site (the handler is the same function)
+                ints = [b for b in body if b[1] == "INT"]
+                body = [b for b in body if b[1] != "INT"] + ints[base_seed % 3::3]
             probes = [ex.submit(run_escalate, root, tmpls[SCENARIOS[sc][0]], sc, s, n, 0, 0) for sc, s, n in body]
             futs2 = []
             for (sc, s, n), pf in zip(body, probes):
                 pr = pf.result()
                 results.append(pr)
                 after = pr.get("after") or 0
-                step2 = 1 if tier == "thorough" else 3
+                step2 = 2 if tier == "thorough" else 3
                 for n2 in range(1 + (base_seed % step2), after + 1, step2):
                     futs2.append(ex.submit(run_escalate, root, tmpls[SCENARIOS[sc][0]], sc, s, n, n2, 1))
             for f in futs2:
